@@ -209,6 +209,7 @@ func checkC01(c *Ctx) {
 	// every way of obtaining a key object yields one with all the fields its operation reads
 	c.ctorRule(p, "C01.codec", "kem/frodo/frodo640shake", "PublicKey", "EncapsulateTo")
 	c.ctorRule(p, "C01.codec", "kem/frodo/frodo640shake", "PrivateKey", "DecapsulateTo")
+	c.fieldStoreRule(p, "C01.codec", "the public key handed out carries the X25519 public value, not the secret scalar", p.Func("kem/xwing", "PrivateKey", "Public"), "x", `param#0\.xpk`)
 	c.ctorRule(p, "C01.codec", "kem/xwing", "PublicKey", "EncapsulateTo")
 	c.ctorRule(p, "C01.codec", "kem/xwing", "PrivateKey", "DecapsulateTo")
 	// no bit of a received share or ciphertext is cleared before it is bound into the secret (the masked bits
